@@ -1148,8 +1148,9 @@ func (e *Entry) Augment(addErrors bool) (processed, skipped int) {
 			unapplied = append(unapplied, a)
 			continue
 		}
-		if target.Dir == nil {
-			// A leaf, leaf-list, anydata or anyxml cannot have children.
+		if target.Dir == nil || target.Kind == AnyDataEntry || target.Kind == AnyXMLEntry {
+			// A leaf, leaf-list, anydata or anyxml cannot have children
+			// (the entries of the last two have a child map all the same).
 			e.errorf("%s: augment %s: target is not a node that can have children", Source(a.Node), a.Name)
 			processed++
 			continue
